@@ -255,7 +255,8 @@ add("C35", "TLC on LosTraverse.tla (a line through a grid as a transition system
     "periodic wrap, negative positions), RegriddingOperator (also on a sub-space and 2-d), FieldZeroPadder (end / central), MaskOperator (1-d, 2-d) "
     "and the exact fraction of a turn of every term of the non-uniform Fourier sum for Nufft (1-d, 2-d) and Gridder; forward matrices and adjoints "
     "are compared.",
-    TRUST + "float32 weights and the 1e-7 end-point offset of LOSResponse bound its comparison to 2e-5; Nufft/Gridder at eps=1e-12 compared to 1e-9; VariablePositionNufft and the parallax (sigmas) mode of LOSResponse are not covered.")
+    TRUST + "float32 weights and the 1e-7 end-point offset of LOSResponse bound its comparison to 2e-5; Nufft/Gridder at eps=1e-12 compared to 1e-9; VariablePositionNufft (positions as input) is bound to the same Fourier matrices: value E^H f, Jacobian with respect to the "
+    "grid values and the coordinates, adjoint of the Jacobian; ShiftedPositionFFT and the parallax (sigmas) mode of LOSResponse are not covered.")
 
 add("C33", "TLC on PyTree.tla (every tree_math operation defined tree-wise and on the flat array; TLC checks the two agree) and AxisMap.tla (vmap semantics vs the move-to-front algorithm) + replay of every instance into nifty.re.Vector / tree_math and smap / lmap / jax.vmap",
     "PyTree.tla: five container shapes (dict with unsorted insertion order, tuple, list, nested) over integer and Gaussian-integer leaves; arithmetic with "
